@@ -3,9 +3,9 @@
   in the private wake list of a cv signaller, popped by a note / counter waker that still has to post,
   or out), the per-program-point facts `CF` of a caller about the locks it holds and the progress of its
   dequeue loop, and the frame lemma for the steps of other threads.
-  Everything here is used under the hypothesis `s.f3 = false` (no cv_dequeue has run inside the window
-  of defect F3 so far): after such an event a stale cv waker may clear `waiting` of a reused stack slot
-  that is meanwhile queued on ANY kind of object, and none of the statements below survives.
+  (On the code before the repair of defect F3 these statements only held on runs on which no cv_dequeue had
+  "removed" a record that a signaller had already unlinked; cv_dequeue now looks for the record in
+  pcv->waiters and, if a waker owns it, waits for `waiting == 0`.)
 -/
 import NsyncVerif.Proofs.WaitNRet
 
@@ -114,7 +114,7 @@ structure CF (s : State) (t : Tid) : Prop where
   dq : inCall (s.pc t) = true → (s.fr t).frees = 0 → ∀ k r, (s.fr t).recs[k]? = some r →
             ((s.rcd r).deqd = true ↔ k < dqIdx (s.pc t) (s.fr t))
 
-/-- the whole invariant, under the hypothesis that defect F3 has not struck so far -/
+/-- the whole invariant -/
 structure QInv (s : State) : Prop where
   qi : QI s
   cf : ∀ t, CF s t
